@@ -13,7 +13,7 @@ import (
 	"golang.org/x/tools/go/packages"
 )
 
-var repoPkgs = []string{"./internal/glob", "./internal/collection", "./internal/server", "./internal/field", "./internal/object"}
+var repoPkgs = []string{"./internal/..."}
 
 func loadVerifier(repo, externDir string) (*Verifier, error) {
 	cfg := &packages.Config{
@@ -56,6 +56,7 @@ func loadVerifier(repo, externDir string) (*Verifier, error) {
 			return nil, err
 		}
 	}
+	v.computeEffects()
 	return v, nil
 }
 
@@ -85,7 +86,14 @@ func (v *Verifier) runFuncs(keys []string) []*FuncResult {
 				if label == "" {
 					label = fmt.Sprint(i + 1)
 				}
+				if onlySplit != "" && !strings.Contains(","+onlySplit+",", ","+label+",") {
+					continue
+				}
+				if sp.AtCall != "" {
+					pendingSplitCall = sp.AtCall
+				}
 				out = append(out, v.verifyFunc(k, sp.Name, sp.Name+"="+label, &cs))
+				pendingSplitCall = ""
 			}
 			continue
 		}
@@ -93,6 +101,9 @@ func (v *Verifier) runFuncs(keys []string) []*FuncResult {
 	}
 	return out
 }
+
+var onlySplit string
+var pendingSplitCall string
 
 func main() {
 	if len(os.Args) < 2 {
@@ -104,6 +115,24 @@ func main() {
 		cmdVerify(os.Args[2:])
 	case "check":
 		cmdCheck(os.Args[2:])
+	case "worker":
+		cmdWorker(os.Args[2:])
+	case "effects":
+		v, err := loadVerifier("/repo", "/verif/contracts/extern")
+		if err != nil {
+			fmt.Fprintln(os.Stderr, err)
+			os.Exit(2)
+		}
+		for _, k := range os.Args[2:] {
+			for fk := range v.funcs {
+				if strings.Contains(fk, k) {
+					fmt.Printf("%-45s %s\n", fk, v.effectSummary(fk))
+					if ef := v.effects[fk]; ef != nil && len(ef.Unknown) > 0 {
+						fmt.Printf("      unknown: %v\n", sortedKeys(ef.Unknown))
+					}
+				}
+			}
+		}
 	default:
 		fmt.Fprintln(os.Stderr, "unknown subcommand")
 		os.Exit(2)
@@ -119,6 +148,7 @@ func cmdVerify(args []string) {
 	timeout := fs.Int("timeout", 20, "per-obligation timeout (s)")
 	all := fs.Bool("all-solvers", false, "wait for all solvers and require agreement")
 	verbose := fs.Bool("v", false, "verbose")
+	fs.StringVar(&onlySplit, "split", "", "only these split cases (comma separated labels)")
 	fs.Parse(args)
 	t0 := time.Now()
 	v, err := loadVerifier(*repo, *ext)
@@ -179,4 +209,3 @@ func cmdVerify(args []string) {
 		os.Exit(1)
 	}
 }
-
